@@ -325,3 +325,99 @@ def specs(prop='C02'):
     ] + [Fragment(f'fst:FST.{n}', 'C06' if prop == 'C06' else prop, f'coords.{n}',
                   [dict(attr=n, has_loc=h) for h in (True, False)], run_coord)
          for n in ('lineno', 'col_offset', 'end_lineno', 'end_col_offset')]
+
+
+def loc_arguments_specs(prop='C06'):
+    """fst_locs:_loc_arguments (function definitions): the argument list spans exactly the text between its delimiters.
+    Against the contracts of the text scanners (next_find: first occurrence of the needle at or after the given start,
+    prev_find: last occurrence before the given end - both assumed, they are string searches):
+      open.search_starts_after_every_type_parameter   the '(' is looked for from the END of the LAST type parameter (any
+                                                       number of them; an earlier one would find a '(' inside a bound)
+      open.search_starts_at_the_def                    ... or from the start of the def when there are none
+      close.search_window                              the ')' is looked for backwards from the bound of the whole list to
+                                                       the end of the last child (or just after the '(' when empty)
+      result                                           (line, col + 1 of the '(')  ..  position of the ')'"""
+    from pyvc import values
+    from pyvc.contract import Fragment
+    from pyvc.interp import Interp, IFunc, SObj, ABSENT
+    import collections
+    FSTLOC = collections.namedtuple('fstloc', 'ln col end_ln end_col')
+
+    def run(ctx, case, loc, pre, label):
+        calls = []
+        n_tp = ctx.int('n_type_params')
+        tstar = ctx.int('tstar')
+        ctx.assume(and_(n_tp >= 0))
+        P = FSTLOC(ctx.int('p_ln'), ctx.int('p_col'), ctx.int('p_end_ln'), ctx.int('p_end_col'))
+
+        def tp_elem(i):
+            return SObj('tp', {}, f=SObj('tpf', {}, loc=FSTLOC(ctx.int(f'tp{case["k"]}_ln_{i}'), ctx.int(f'tp_col_{i}'),
+                                                              _TPL(i), _TPC(i))))
+        import z3
+        from pyvc import sym
+        from pyvc.sym import _wrap_int
+        TPL = z3.Function('tp_end_ln', z3.IntSort(), z3.IntSort())
+        TPC = z3.Function('tp_end_col', z3.IntSort(), z3.IntSort())
+
+        def _TPL(i):
+            return _wrap_int(TPL(sym._z(i)))
+
+        def _TPC(i):
+            return _wrap_int(TPC(sym._z(i)))
+        tps = values.SList.of_base(values.ListBase('type_params', tp_elem, n_tp)) if case['tp'] else None
+        FUNCDEF = SObj('FunctionDef', {})
+        parenta = SObj('parenta', {}, **{'__class__': FUNCDEF})
+        if case['tp'] is not None:
+            parenta._set('type_params', tps if case['tp'] else [], count=False)
+        parent = SObj('parent', {}, a=parenta, loc=P)
+        last = None
+        if case['children']:
+            last = SObj('last_child', {}, loc=FSTLOC(ctx.int('c_ln'), ctx.int('c_col'), ctx.int('c_end_ln'), ctx.int('c_end_col')))
+        B = (ctx.int('bound_ln'), ctx.int('bound_col'))
+        self = SObj('self', {}, a=SObj('a', {}, **{'__class__': 'arguments'}), parent=parent, root=SObj('root', {}, _lines='LINES'))
+        self._set('last_child', lambda: last, count=False)
+        self._set('_next_bound', lambda: B, count=False)
+        O = (ctx.int('open_ln'), ctx.int('open_col'))
+        C = (ctx.int('close_ln'), ctx.int('close_col'))
+
+        def next_find(lines, ln, col, end_ln, end_col, src, *a, **k):
+            calls.append(('next', ln, col, end_ln, end_col, src))
+            return O
+
+        def prev_find(lines, ln, col, end_ln, end_col, src, *a, **k):
+            calls.append(('prev', ln, col, end_ln, end_col, src))
+            return C
+        it = Interp({'next_find': next_find, 'prev_find': prev_find, 'fstloc': FSTLOC, 'arguments': 'arguments',
+                     'Lambda': SObj('Lambda', {}), 'ASTS_LEAF_FUNCDEF': frozenset([FUNCDEF])})
+        it.globals['getattr'] = lambda o, nm, d=None: (lambda v: d if v is ABSENT else v)(o._get(nm))
+        f = IFunc(it, loc.node, None, '_loc_arguments')
+        r = it.call(f, (self,))
+        ctx.notes['outcome'] = 'return'
+        nx = [c for c in calls if c[0] == 'next']
+        pv = [c for c in calls if c[0] == 'prev']
+        ok = len(nx) == 1 and len(pv) == 1 and nx[0][5] == '(' and pv[0][5] == ')'
+        ctx.prove(f'{pre}.one_search_each[{label}]', ok)
+        if not ok:
+            return
+        has_tp = case['tp'] and truth(n_tp > 0)
+        if has_tp:
+            ctx.prove(f'{pre}.open.search_starts_after_every_type_parameter[{label}]',
+                      eq((nx[0][1], nx[0][2]), (_TPL(n_tp - 1), _TPC(n_tp - 1))),
+                      info="the '(' search starts at the end of the LAST type parameter")
+        else:
+            ctx.prove(f'{pre}.open.search_starts_at_the_def[{label}]', eq((nx[0][1], nx[0][2]), (P.ln, P.col)))
+        ctx.prove(f'{pre}.open.search_ends_at_the_def_end[{label}]', eq((nx[0][3], nx[0][4]), (P.end_ln, P.end_col)))
+        if last is not None:
+            ctx.prove(f'{pre}.close.search_window[{label}]',
+                      eq((pv[0][1], pv[0][2], pv[0][3], pv[0][4]), (last.loc.end_ln, last.loc.end_col, B[0], B[1])))
+        else:
+            ctx.prove(f'{pre}.close.search_window[{label}]',
+                      eq((pv[0][1], pv[0][2], pv[0][3], pv[0][4]), (O[0], O[1] + 1, B[0], B[1])))
+        ctx.prove(f'{pre}.result[{label}]', eq(tuple(r), (O[0], O[1] + 1, C[0], C[1])),
+                  info='from just past the opening parenthesis to the closing parenthesis')
+
+    cases = [dict(tp=t, children=c, k=k) for k, (t, c) in enumerate([(True, True), (True, False), (False, True), (None, True),
+                                                                    (None, False)])]
+    return [Fragment('fst_locs:_loc_arguments', prop, 'loc.arguments', cases, run, min_obligations=3,
+                     notes='FunctionDef / AsyncFunctionDef parent; next_find / prev_find under assumed contracts (string '
+                           'searches); any number of type parameters')]
